@@ -90,6 +90,18 @@ CHECKS = {
              "formatting path of literal division is outside the VC generator (bounded native check instead).",
         technique="contract-based deductive verification: AST->z3 verification conditions in linear/non-linear integer arithmetic "
                   "over symbolic literal values on the real folding functions; bounded native stand-in for literal division"),
+    "C18": dict(
+        category="proof",
+        text="parse_single and Parser.parse are verified for any number of behaviour parts / instructions by fold invariants "
+             "(base, preservation for an arbitrary element, exit): one entry per name, one tree per part in order, trees are a "
+             "function of (grammar, text) only; a failure at an ARBITRARY part index with any Exception class yields the entry "
+             "with no trees and the error's class name, never an exception, and touches nothing else. The schedule quantifier "
+             "(pool sizes / interleavings) is NOT verified: it follows only from the assumed contract of Pool.imap (T-POOL).",
+        design_ref="DESIGN.md section 3, C18",
+        note=TRUST + "Assumed external contracts: Lark(...).parse deterministic, returns or raises (T-LARK); multiprocessing."
+             "Pool.imap yields f(x) once per x for every schedule, pickling preserves values (T-POOL); tqdm is the identity.",
+        technique="contract-based deductive verification: loop (fold) invariants over abstract sequences + path-complete symbolic "
+                  "execution of the real functions with external calls replaced by assumed contracts"),
 }
 
 NOT_APPLICABLE = {
